@@ -492,7 +492,10 @@ func ExtremeFamilies(r *rand.Rand, g func(*rand.Rand) string, n int, accept func
 		}
 		// Two lettered values as well: where the run is a prerelease identifier,
 		// numbers of every size must all sort below them.
-		for _, e := range append([]string{"0", "1", "alpha", "aaaaaaaaaaaaaaaaaaaaaaaa"}, extremes...) {
+		// Zero and ten spelled with more digits as well: where leading zeros
+		// are legal they change neither the value nor, for a zero, whether the
+		// component counts as absent.
+		for _, e := range append([]string{"0", "1", "alpha", "aaaaaaaaaaaaaaaaaaaaaaaa", "00", "000", "010"}, extremes...) {
 			t := s[:x[0]] + e + s[x[1]:]
 			if seen[t] {
 				continue
